@@ -227,10 +227,15 @@ class Run:
         for o in listed:
             lines.append(f'KNOWN-FINDING: property={self.prop} {o.rule} {o.func} {o.slot}: {known["open"][(self.prop, o.key)]}')
         replay_dir = VERIF / 'replay'
+        if not quiet:
+            # replay files of this property are rewritten on every reported run (also for scratch trees: the
+            # VIOLATION line must point to an existing file); evidence is only written for /repo
+            replay_dir.mkdir(exist_ok=True)
+            for old_file in replay_dir.glob(f'{self.prop}-*.json'):
+                old_file.unlink()
         for i, o in enumerate(fresh):
             path = replay_dir / f'{self.prop}-{i}.json'
-            if write:
-                replay_dir.mkdir(exist_ok=True)
+            if not quiet:
                 path.write_text(json.dumps({'property': self.prop, **o.asdict(), 'key': o.key,
                                             'tree_digest': model.digest}, indent=1))
             lines.append(f'  {o.where}: {o.rule} in {o.func} [{o.slot}]: expected {o.expected}; found {o.found}'
